@@ -368,17 +368,7 @@ func (ex *Exec) writePath(st *State, v Value, path []PathEl, nv Value, t types.T
 	return ex.G.Fresh(t, "unk_written")
 }
 
-func isIntLit(s string) bool {
-	if s == "" {
-		return false
-	}
-	for _, c := range s {
-		if c < '0' || c > '9' {
-			return false
-		}
-	}
-	return true
-}
+func isIntLit(s string) bool { return strings.HasPrefix(s, "int|") }
 
 func (ex *Exec) load(st *State, p *PtrV, t types.Type) Value {
 	if p.Obj == nil {
@@ -418,6 +408,7 @@ func (ex *Exec) oblige(st *State, kind, name string, goal *Term, ins ssa.Instruc
 		ob.Result = "folded"
 	default:
 		ob.PC = append([]*Term(nil), st.PC...)
+		ob.Snap = ex.snapshot(st, false)
 	}
 	ex.Obls = append(ex.Obls, ob)
 }
